@@ -1,5 +1,5 @@
 (* C02 - decompiled Lingo denotes the compiled statements and expressions.  Property theorems only. *)
-From Coq Require Import ZArith List String.
+From Coq Require Import ZArith List String Lia.
 From DRX Require Import Py.PyBytes Model.LingoAst Model.LingoGen Model.LingoOps Model.LingoLoop Spec.SpecLingo Spec.SpecText Proofs.LingoExecFacts Proofs.LingoStmtFacts Proofs.LingoTextFacts Proofs.LingoParseFacts.
 Import ListNotations.
 Open Scope Z_scope.
@@ -17,6 +17,17 @@ Theorem C02_expression_inversion :
                = run_ops fuel d off len (a + zlen (compile_e e)) r' (after_e en a e m).
 Proof. exact exec_e. Qed.
 Print Assumptions C02_expression_inversion.
+
+(* Since the syntax has  EObj f pid a  ( the <property number pid> of sound / sprite / cast <a> , opcodes 5C 04 / 06 / 09 / 0D:
+   the object id, the property number as an integer, the two-byte opcode) and  SSetObj  (its assignment form, 5D ..),
+   the two inversion theorems cover the object-property families as well, nested to any depth inside the other
+   forms; the text / JavaScript theorems exclude them (text_ok, js_ok).  Non-vacuity: *)
+Example C02_object_property_example :
+  let en := Build_env ["x"; "puppet"] [] [Leaf KLocal "i" 0 true] [] [] in
+  let e := EObj FSprite 8 (EBin Add (ELoc 0) (EInt 1)) in          (* the height of sprite (i + 1) *)
+  wf_e en e /\ compile_e e = [Byte.x4c; Byte.x00; Byte.x41; Byte.x01; Byte.x05; Byte.x41; Byte.x08; Byte.x5c; Byte.x06] /\
+  reify_e en 0 e = Accessor 7 (ObjRef KSprite "add" 7 (Binary "add" 4 (Leaf KLocal "i" 0 true) (Leaf KConst "1" 2 true))) "height".
+Proof. split; [cbn; repeat split; lia | split; vm_compute; reflexivity]. Qed.
 
 Theorem C02_expression_whole :
   forall en e d off fuel r m,
